@@ -137,6 +137,40 @@ def run(ctx):
             extra = sorted(x for x in free - allowed if x in mod_vars or (x not in f.module.imports and x not in f.module.functions and x not in f.module.classes))
             if extra and cached:
                 o.violated(f, f.node, f"{f.name} is memoised but also reads {extra}: the cache is not keyed by everything the value depends on")
+        # exactness: the counts are Python ints.  `n ** (n - c)` / `pow(n, n - c)` has a NEGATIVE exponent for n < c (Q(1, 0) is
+        # reached by the recursion), where Python returns a float: 1.0 then multiplies into every larger count and exactness is
+        # lost above 2**53.  The power must be converted back with int(), or n >= c must be a path condition.
+        qpar = astx.Parents(q.node)
+        qsc = Scope(q.node)
+        npar = q.params[0] if q.params else "n"
+        for x in astx.walk_fn(q.node):
+            base = expo = None
+            if isinstance(x, ast.BinOp) and isinstance(x.op, ast.Pow):
+                base, expo = x.left, x.right
+            elif isinstance(x, ast.Call) and txt(x.func) in ("pow", "math.pow") and len(x.args) == 2:
+                base, expo = x.args
+            if base is None:
+                continue
+            if txt(x.func) == "math.pow" if isinstance(x, ast.Call) else False:
+                o.violated(q, x, "math.pow returns a float: the count is not exact above 2**53", shape_free=True)
+                continue
+            e_ = qsc.resolve(expo)
+            if not (isinstance(e_, ast.BinOp) and isinstance(e_.op, ast.Sub) and txt(e_.left) == npar and isinstance(astx.const_value(e_.right), int) and astx.const_value(e_.right) >= 1):
+                continue
+            c_ = astx.const_value(e_.right)
+            wrapped = any(isinstance(a_, ast.Call) and txt(a_.func) == "int" for a_ in qpar.ancestors(x))
+            guarded = False
+            for t_, pol_ in rules.known_facts(qpar, x):
+                r_ = rules.compare_with_pivot(t_, lambda y: txt(y) == npar, negated=not pol_)
+                if r_ is not None and isinstance(astx.const_value(r_[1]), int):
+                    v_ = astx.const_value(r_[1])
+                    if (r_[0] == ">=" and v_ >= c_) or (r_[0] == ">" and v_ >= c_ - 1):
+                        guarded = True
+            if wrapped or guarded:
+                o.holds(q, x, f"`{txt(x)}` is " + ("converted back with int()" if wrapped else f"only evaluated for {npar} >= {c_}") + ": the count stays an int")
+            else:
+                o.violated(q, x, f"`{txt(x)}` has a negative exponent for {npar} < {c_} (Q(1, 0) is reached by the recursion) and is then a FLOAT (1 ** -1 == 1.0): every count that "
+                                 "multiplies it becomes a float and is no longer exact above 2**53", shape_free=True)
 
     with ctx.obligation("C16.4", "brute-force counters: all k-subsets of the induced subgraph's edges, count the connected remainders", floor=5) as o:
         f = prog.func("number_of_connected_graphs")
